@@ -274,7 +274,7 @@ __attribute__((noinline)) void run_mixed_scalar(long id, const char *rname, cons
     vf::run_loop(0, va.size() * partners, [&](u64 idx) {
         const R a = pa[idx / partners];
         const S sb = pb[((idx / partners) * 7 + (idx % partners) * 31 + 1) % nb];
-        const R b = (R)sb;  // witness only (the scalar, shown in the rep type)
+        const R b = ((ld)sb == (ld)sb && (ld)sb > (ld)std::numeric_limits<R>::lowest() / 2 && (ld)sb < (ld)std::numeric_limits<R>::max() / 2) ? (R)sb : (R)0;  // witness only (the scalar, shown in the rep type)
         { u64 x = 0, y = 0; memcpy(&x, &a, sizeof(R) < 8 ? sizeof(R) : 8); memcpy(&y, &sb, sizeof(S) < 8 ? sizeof(S) : 8); vf::g_aux0 = x; vf::g_aux1 = y; }
         const R la = vf::launder(a); const S lb = vf::launder(sb);
         auto qa = au::make_quantity<U>(la);
